@@ -4,6 +4,7 @@ import RbV.Model.ShiftAnd
 import RbV.Model.Horspool
 import RbV.Model.Kmp
 import RbV.Model.Bndm
+import RbV.Model.Bom
 /-!
 # C08 — exact matchers return exactly all occurrences
 
@@ -82,5 +83,23 @@ theorem bndm_exact (p t : List Nat) (hp : 0 < p.length) (hm : p.length ≤ 64) :
   Bndm.findAll_eq_occurrences p t hp hm
 
 example : Bndm.findAll [1, 2, 1] [1, 2, 1, 2, 1] = some [0, 2] := by decide
+
+/-- **BOM, partial.** Full statement wanted: `∀ p t, 0 < p.length → Bom.findAll p t = occurrences p t`.
+Proved: the *search* (mirror model of the window loop of `bom.rs`: backward scan through the oracle, the
+`m + 2 - j` shift, the report) is exact on **every text** for every pattern whose oracle table — as built by the
+mirror model of `BOM::new` — satisfies two decidable conditions (`completeB`: every factor of the pattern is accepted
+when read backwards; `monotoneB`: transitions go strictly upwards, at most to state `m`, and `q → q+1` only on the
+`q`-th symbol of the reversed pattern). Missing: that the construction establishes the two conditions for *every*
+pattern (the factor-oracle theorem of Allauzen–Crochemore–Raffinot). The driver evaluates both conditions for each
+pattern of the correspondence run (tag `bom-table-ok`), so for every tested pattern the model's search is proved
+correct on all texts. -/
+theorem bom_exact_partial (p t : List Nat) (hp : 0 < p.length)
+    (hC : Bom.completeB (Bom.build p) p = true) (hM : Bom.monotoneB (Bom.build p) p.reverse = true) :
+    Bom.findAll p t = occurrences p t :=
+  Bom.findAll_eq_occurrences_of_table p t hp hC hM
+
+example : Bom.completeB (Bom.build [1, 2, 1, 1, 2]) [1, 2, 1, 1, 2] = true ∧
+    Bom.monotoneB (Bom.build [1, 2, 1, 1, 2]) [1, 2, 1, 1, 2].reverse = true := by decide
+example : Bom.findAll [1, 2, 1] [1, 2, 1, 2, 1] = [0, 2] := by decide
 
 end RbV.Thm.C08
